@@ -347,6 +347,7 @@ def handlerS (model : CpuModel) : H → M StepOutS
   -- function literals
   | .lit7true => pure ⟨fun _ => 7, true⟩
   | .lit2false => pure ⟨fun _ => 2, false⟩
+  | .other => failM .script
   -- LDA
   | .ldaImmediate => readOp model .imm (·.ldaImmediate_0) .lda
   | .ldaZeroPage => readOp model .zp (·.ldaZeroPage_0) .lda
